@@ -27,20 +27,20 @@ namespace Unc
 inductive P | target | tmp | bak | md5
   deriving DecidableEq, Repr
 
-abbrev Bytes := List Nat
+abbrev FBytes := List Nat
 
 /-- file system: content of each path, `none` = does not exist -/
 structure FS where
-  target : Option Bytes
-  tmp : Option Bytes
-  bak : Option Bytes
-  md5 : Option Bytes
+  target : Option FBytes
+  tmp : Option FBytes
+  bak : Option FBytes
+  md5 : Option FBytes
   deriving DecidableEq, Repr
 
-def FS.get (f : FS) : P → Option Bytes
+def FS.get (f : FS) : P → Option FBytes
   | .target => f.target | .tmp => f.tmp | .bak => f.bak | .md5 => f.md5
 
-def FS.set (f : FS) (p : P) (v : Option Bytes) : FS :=
+def FS.set (f : FS) (p : P) (v : Option FBytes) : FS :=
   match p with
   | .target => { f with target := v } | .tmp => { f with tmp := v }
   | .bak => { f with bak := v } | .md5 => { f with md5 := v }
@@ -48,7 +48,7 @@ def FS.set (f : FS) (p : P) (v : Option Bytes) : FS :=
 /-- abstract system calls that change the file system -/
 inductive Sys
   | creat (p : P)                 -- open(O_WRONLY|O_CREAT|O_TRUNC)
-  | write (p : P) (bs : Bytes)    -- all writes to one open file + its close, merged
+  | write (p : P) (bs : FBytes)    -- all writes to one open file + its close, merged
   | rename (a b : P)
   | unlink (p : P)
   deriving DecidableEq, Repr
@@ -86,8 +86,8 @@ def failStep (f : FS) (k : Nat) : Sys → FS
 /-- result of the formatter (`uncrustify_file()`): the complete output, or `exit(status)` somewhere
     inside (stdio flushes whatever part of the output was already produced, normally nothing) -/
 inductive FmtRes
-  | ok (out : Bytes)
-  | fail (status : Nat) (partialOut : Bytes)
+  | ok (out : FBytes)
+  | fail (status : Nat) (partialOut : FBytes)
   deriving DecidableEq, Repr
 
 /-- the three ways to rewrite in place -/
@@ -118,7 +118,7 @@ def EX_IOERR : Nat := 74
 inductive Prog
   | done (status : Nat)
   /-- read the whole of `p`; `err` when `p` does not exist or a call fails -/
-  | load (p : P) (ok : Bytes → Prog) (err : Prog)
+  | load (p : P) (ok : FBytes → Prog) (err : Prog)
   /-- `file_content_matches(tmp, target)`; any failure inside makes it answer `false` -/
   | cmp (res : Bool → Prog)
   /-- `make_folders(tmp)` -/
@@ -129,7 +129,7 @@ inductive Prog
 /-- `backup_create_md5_file(filename_in)`, then `k`.
     backup.cpp: fopen(filename,"rb") fails → exit(EX_SOFTWARE); read it back, digest it;
     fopen(md5,"wb"); fprintf; fclose.  Before the fs-2 patch failures of the md5 file were ignored. -/
-def md5Part (fx : Fix) (h : Bytes → Bytes) (k : Prog) : Prog :=
+def md5Part (fx : Fix) (h : FBytes → FBytes) (k : Prog) : Prog :=
   .load .target
     (fun cur => .eff (.creat .md5)
       (.eff (.write .md5 (h cur)) k (if fx.checkIO then .done EX_IOERR else k))
@@ -138,7 +138,7 @@ def md5Part (fx : Fix) (h : Bytes → Bytes) (k : Prog) : Prog :=
 
 /-- `do_source_file` after a successful `fclose(pfout)`: md5 (old position), compare, unlink or
     rename, md5 (new position); `keep_mtime` is not modelled (`--mtime` not given). -/
-def finishPart (fx : Fix) (mode : FsMode) (h : Bytes → Bytes) : Prog :=
+def finishPart (fx : Fix) (mode : FsMode) (h : FBytes → FBytes) : Prog :=
   let md5K (k : Prog) : Prog := if mode.backup then md5Part fx h k else k
   let tail : Prog := if fx.md5AfterRename then md5K (.done EX_OK) else .done EX_OK
   let body : Prog :=
@@ -148,7 +148,7 @@ def finishPart (fx : Fix) (mode : FsMode) (h : Bytes → Bytes) : Prog :=
   if fx.md5AfterRename then body else md5K body
 
 /-- `uncrustify_file(fm, pfout, …)` writing to the temp file, then `fclose(pfout)` -/
-def fmtPart (fx : Fix) (mode : FsMode) (h : Bytes → Bytes) (r : FmtRes) : Prog :=
+def fmtPart (fx : Fix) (mode : FsMode) (h : FBytes → FBytes) (r : FmtRes) : Prog :=
   match r with
   | .fail st part => .eff (.write .tmp part) (.done st) (.done st)   -- exit(st) inside uncrustify_file
   | .ok out =>
@@ -157,7 +157,7 @@ def fmtPart (fx : Fix) (mode : FsMode) (h : Bytes → Bytes) (r : FmtRes) : Prog
 
 /-- `make_folders(filename_tmp)`, `fopen(filename_tmp,"wb")`, the formatter and everything after it
     (the part of `do_source_file` that follows the backup) -/
-def restPart (fx : Fix) (mode : FsMode) (h : Bytes → Bytes) (r : FmtRes) : Prog :=
+def restPart (fx : Fix) (mode : FsMode) (h : FBytes → FBytes) (r : FmtRes) : Prog :=
   .mkdirs                                            -- make_folders(filename_tmp)
     (.eff (.creat .tmp)                              -- fopen(filename_tmp, "wb")
       (fmtPart fx mode h r)
@@ -165,7 +165,7 @@ def restPart (fx : Fix) (mode : FsMode) (h : Bytes → Bytes) (r : FmtRes) : Pro
     (.done EX_IOERR)
 
 /-- `backup_copy_file()` once the md5 did not match: fopen(bak,"wb"); fwrite; fclose; then `rest` -/
-def backupPart (fx : Fix) (orig : Bytes) (rest : Prog) : Prog :=
+def backupPart (fx : Fix) (orig : FBytes) (rest : Prog) : Prog :=
   .eff (.creat .bak)
     (.eff (.write .bak orig) rest (if fx.checkIO then .done EX_SOFTWARE else rest))
     (.done EX_SOFTWARE)
@@ -173,7 +173,7 @@ def backupPart (fx : Fix) (orig : Bytes) (rest : Prog) : Prog :=
 /-- `do_source_file(filename_in, filename_out = filename_in, …, no_backup, keep_mtime = false)`.
     `F` = the formatter as a function of the bytes loaded, `h` = content of the md5 file that
     describes given bytes (abstract; the stored md5 "matches" iff the md5 file equals `h orig`). -/
-def doSourceFile (fx : Fix) (mode : FsMode) (F : Bytes → FmtRes) (h : Bytes → Bytes) : Prog :=
+def doSourceFile (fx : Fix) (mode : FsMode) (F : FBytes → FmtRes) (h : FBytes → FBytes) : Prog :=
   .load .target                                      -- load_mem_file(filename_in, fm)
     (fun orig =>
       let rest : Prog := restPart fx mode h (F orig)
@@ -286,13 +286,13 @@ def runOk (p : Prog) (f : FS) : FS × Nat :=
 /-! ## The predicates of C13 -/
 
 /-- what C13 allows the target path to hold: the complete original or the complete formatted bytes -/
-def TargetOK (orig : Bytes) (r : FmtRes) (g : FS) : Prop :=
+def TargetOK (orig : FBytes) (r : FmtRes) (g : FS) : Prop :=
   g.target = some orig ∨ ∃ out, r = .ok out ∧ g.target = some out
 
 /-- C13, backup clause: once the target no longer holds the original, the backup does — unless the
     stored md5 said that the "original" is uncrustify's own earlier output, in which case the
     backup is left exactly as it was (it holds the older user text: C14) -/
-def BackupOK (h : Bytes → Bytes) (orig : Bytes) (f0 g : FS) : Prop :=
+def BackupOK (h : FBytes → FBytes) (orig : FBytes) (f0 g : FS) : Prop :=
   g.target ≠ some orig → g.bak = some orig ∨ (f0.md5 = some (h orig) ∧ g.bak = f0.bak)
 
 end Unc
